@@ -455,6 +455,16 @@ pub fn gen_planner(out: &mut dyn Write, seed: u64, thorough: bool) {
             _ => rng.below(30),
         };
         let mut d = gen_data(&mut rng, len, &mut hist);
+        if k % 97 == 5 {
+            // long inputs: Base256 runs around the 250-byte length field switch, long alternations
+            let n = if thorough && k % 970 == 5 { 1540 + rng.below(40) } else { 230 + rng.below(60) };
+            d = match rng.below(3) {
+                0 => (0..n).map(|_| 128 + rng.below(128) as u8).collect(),
+                1 => (0..n).map(|i| [b'A', b'a', b'1', b'*', 0xE9, b' '][(i / (1 + k % 4)) % 6]).collect(),
+                _ => gen_data(&mut rng, n, &mut hist),
+            };
+            *hist.entry("planner_long_inputs".into()).or_default() += 1;
+        }
         if k % 5 == 0 && !d.is_empty() {
             // end-of-data situations: digit pairs and short native tails
             let t = [&b"12"[..], b"7", b"AB", b"A", b"ab1", b"\xC8", b"A12", b"1234"][rng.below(8)];
